@@ -24,6 +24,9 @@ type Clock struct {
 	// OnTimer, if set, is called (without the clock lock) whenever a
 	// timer is created.
 	OnTimer func(d time.Duration)
+	// AutoTick, if non-zero, is added to the clock on every Now() call, so
+	// that concurrent callers never observe the same instant twice.
+	AutoTick time.Duration
 }
 
 type timer struct {
@@ -45,6 +48,9 @@ func New(unix int64) *Clock {
 func (c *Clock) Now() time.Time {
 	c.mu.Lock()
 	defer c.mu.Unlock()
+	if c.AutoTick > 0 {
+		c.now = c.now.Add(c.AutoTick)
+	}
 	return c.now
 }
 
